@@ -15,6 +15,7 @@ pub enum SProfile {
     Timeout,
     Amp,
     Idle,
+    Flush,
 }
 
 pub fn sprofile_from(s: &str) -> SProfile {
@@ -23,6 +24,7 @@ pub fn sprofile_from(s: &str) -> SProfile {
         "timeout" => SProfile::Timeout,
         "amp" => SProfile::Amp,
         "idle" => SProfile::Idle,
+        "flush" => SProfile::Flush,
         _ => SProfile::Handshake,
     }
 }
@@ -38,7 +40,7 @@ fn ep_cfg(r: &mut Rng, prof: SProfile) -> EndpointConfig {
     c.keepalive_interval_ms = if prof == SProfile::Idle { *r.pick(&[500u64, 1000, 2000]) } else { *r.pick(&[500u64, 2000, 5000]) };
     c.max_send_rate = *r.pick(&[20_000usize, 200_000, 2_000_000]);
     c.max_receive_rate = *r.pick(&[20_000usize, 200_000, 2_000_000]);
-    if r.chance(1, 6) && prof != SProfile::Idle {
+    if r.chance(1, 6) && prof != SProfile::Idle && prof != SProfile::Flush {
         // occasionally incompatible: packet size larger than the other side's typical allocation
         c.max_packet_size = *r.pick(&[500usize, 3000, 2_000_000]);
         c.max_receive_alloc = *r.pick(&[400usize, 3000, 1_000_000]);
@@ -84,12 +86,14 @@ pub fn run_sess(tr: &mut Trace, run: u64, seed: u64, prof: SProfile) -> SessStat
     for _ in 0..nraw {
         s.add_raw();
     }
-    let silent = prof == SProfile::Idle && r.chance(2, 3); // the applications never submit anything
+    let silent = prof == SProfile::Idle && r.chance(2, 3);
+    // who submits packets: 0 both, 1 clients only, 2 server only (a pure receiver only ever sees ack / sync frames)
+    let pattern = if prof == SProfile::Timeout || prof == SProfile::Life { r.below(3) } else { 0 }; // the applications never submit anything
     let lossfree = (r.chance(1, 3) && prof != SProfile::Amp) || prof == SProfile::Idle;
     let p_drop: u64 = if lossfree { 0 } else { *r.pick(&[0u64, 10, 30, 60]) };
     let p_dup: u64 = if lossfree { 0 } else { *r.pick(&[0u64, 10, 30]) };
-    let p_forge: u64 = if lossfree { 0 } else { match prof { SProfile::Handshake => *r.pick(&[0u64, 10, 30]), SProfile::Amp => 80, _ => *r.pick(&[0u64, 0, 5]) } };
-    let p_replay: u64 = if lossfree { 0 } else { *r.pick(&[0u64, 5, 20]) };
+    let p_forge: u64 = if lossfree || prof == SProfile::Flush { 0 } else { match prof { SProfile::Handshake => *r.pick(&[0u64, 10, 30]), SProfile::Amp => 80, _ => *r.pick(&[0u64, 0, 5]) } };
+    let p_replay: u64 = if lossfree || prof == SProfile::Flush { 0 } else { *r.pick(&[0u64, 5, 20]) };
     let latency = if prof == SProfile::Idle { *r.pick(&[0u64, 10, 100]) } else { *r.pick(&[0u64, 0, 10, 100, 700]) };
     let jitter = if lossfree { 0 } else { *r.pick(&[0u64, 0, 50, 3000]) };
     let cadence = if prof == SProfile::Idle { *r.pick(&[10u64, 20, 100]) } else { *r.pick(&[10u64, 20, 100, 500, 1000]) };
@@ -99,7 +103,7 @@ pub fn run_sess(tr: &mut Trace, run: u64, seed: u64, prof: SProfile) -> SessStat
     let rounds = match prof { SProfile::Timeout => r.range(50, 400), SProfile::Idle => r.range(3000, 40000), _ => r.range(30, 250) };
 
     tr.line(json!({"ev": "Reset", "run": run, "seed": seed as i64 & 0x3FFFFFFF, "driver": "sess-random", "profile": match prof {
-        SProfile::Handshake => "handshake", SProfile::Life => "life", SProfile::Timeout => "timeout", SProfile::Amp => "amp", SProfile::Idle => "idle" },
+        SProfile::Handshake => "handshake", SProfile::Life => "life", SProfile::Timeout => "timeout", SProfile::Amp => "amp", SProfile::Idle => "idle", SProfile::Flush => "flush" },
         "max_active": max_active.min(100000), "max_total": max_total.min(100000), "herr": herr, "nclients": nclients, "nraw": nraw, "lossfree": lossfree, "steady": steady,
         "server": {"timeout": scfg_ep.active_timeout_ms, "keepalive": if scfg_ep.keepalive { scfg_ep.keepalive_interval_ms as i64 } else { -1 },
                    "max_packet_size": scfg_ep.max_packet_size.min(2_000_000_000), "max_receive_alloc": scfg_ep.max_receive_alloc.min(2_000_000_000)},
@@ -152,12 +156,22 @@ pub fn run_sess(tr: &mut Trace, run: u64, seed: u64, prof: SProfile) -> SessStat
             if prof != SProfile::Amp && !silent && r.chance(if prof == SProfile::Idle { 1 } else { 30 }, if prof == SProfile::Idle { 500 } else { 100 }) {
                 let n = r.range(1, 3);
                 for _ in 0..n {
-                    let from_server = r.chance(1, 2);
+                    let from_server = match pattern { 1 => false, 2 => true, _ => r.chance(1, 2) };
                     let maxp = s.slots[i].cfg.max_packet_size.min(scfg_ep.max_packet_size).min(20000);
                     let len = (*r.pick(&[4usize, 50, 1000, 1448, 1449, 5000, 20000])).min(maxp);
                     let mode = *r.pick(&[SendMode::TimeSensitive, SendMode::Unreliable, SendMode::Persistent, SendMode::Reliable, SendMode::Reliable]);
                     s.app_send(tr, from_server, i, r.below(4) as usize, mode, len);
                 }
+            }
+            if prof == SProfile::Flush && round >= 3 && r.chance(1, 6) {
+                let from_server = r.chance(1, 2);
+                let n = r.range(1, 5);
+                for _ in 0..n {
+                    let maxp = s.slots[i].cfg.max_packet_size.min(scfg_ep.max_packet_size);
+                    let len = (*r.pick(&[1449usize, 3000, 6000, 20000, 50])).min(maxp);
+                    s.app_send(tr, from_server, i, r.below(3) as usize, if r.chance(3, 4) { SendMode::Reliable } else { SendMode::Persistent }, len);
+                }
+                s.app_disconnect(tr, from_server, i, false);
             }
             let pd: u64 = match prof { SProfile::Life => 3, SProfile::Handshake => 1, _ => 0 };
             if r.chance(pd, 100) {
